@@ -283,6 +283,19 @@ class C02(Prop):
             pos = rng.randrange(len(ops) + 1)
             ops[pos:pos] = extra
         for op in ops:
+            if op['op'] == 'req' and op['cmd'] == 'set' and \
+                    rng.random() < 0.5:
+                # options whose change asks for a graceful reload of the
+                # workers (action 1 of Watcher.set_opt): on a stopped watcher
+                # that must not start anything either
+                extra = rng.choice([{'env': {'X': '1'}},
+                                    {'max_age_variance': 3},
+                                    {'working_dir': '/'}, {'shell': False},
+                                    {'env': {'Y': '2'}, 'warmup_delay': 0}])
+                if rng.random() < 0.5:
+                    op['props']['options'] = dict(extra)
+                else:
+                    op['props']['options'].update(extra)
             if op['op'] == 'req' and op['cmd'] in ('stop', 'restart', 'rm',
                                                    'quit'):
                 op['waiting'] = True
